@@ -38,6 +38,9 @@ EXPLANATION += " R4 also requires that an assigned occupation array is stored by
 # --- metadata added for batch 8
 EXPLANATION += " R1's validator table includes orbital counts of zero (accepted for restricted / unrestricted, rejected for generalized)."
 # --- end metadata batch 8
+# --- metadata added for batch 9
+EXPLANATION += ' R4 also: on unrestricted orbitals without occupations an assignment of a spin block is refused or reads back as assigned.'
+# --- end metadata batch 9
 TRUSTED = ["CPython ast parser", "attrs validators run on construction and assignment"]
 
 SPIN_ATTRS = ("occs", "coeffs", "energies", "irreps")
